@@ -45,7 +45,9 @@ class NdArr(Val):
         return len(self.shape)
 
     def map(self, f):
-        return NdArr(self.shape, [f(x) for x in self.items], self.kind)
+        out = NdArr(self.shape, [f(x) for x in self.items], self.kind)
+        out.dtype = getattr(self, "dtype", None)
+        return out
 
     def __repr__(self):
         return f"NdArr{self.shape}{self.items}"
@@ -639,6 +641,8 @@ def val_getattr(ev, obj, name, fr, node):
             return obj.map(lambda x: num_getattr(ev, x, name, fr, node))
         if name == "isscalar":
             return BoolV(False)
+        if name == "dtype":
+            return getattr(obj, "dtype", None) or ExtV("numpy.dtype:unknown")
         return BoundBuiltin(obj, name)
     if isinstance(obj, SliceV):
         if name in ("start", "stop", "step"):
@@ -933,7 +937,9 @@ def num_method(ev, x: Num, name, args, kwargs, fr, node):
 
 def nd_method(ev, x: NdArr, name, args, kwargs, fr, node):
     if name == "astype":
-        return x
+        out = NdArr(x.shape, list(x.items))
+        out.dtype = args[0] if args else kwargs.get("dtype")
+        return out
     if name in ("to", "to_value"):
         return x.map(lambda e: num_method(ev, e, name, args, kwargs, fr, node))
     if name == "round":
@@ -950,10 +956,22 @@ def nd_method(ev, x: NdArr, name, args, kwargs, fr, node):
                 if d != -1:
                     known *= d
             dims[dims.index(-1)] = n // known
-        return NdArr(dims, x.items)
+        out = NdArr(dims, x.items)
+        out.dtype = getattr(x, "dtype", None)
+        return out
     if name in ("min", "max"):
         fn = sp.Min if name == "min" else sp.Max
         return Num(fn(*[e.expr for e in x.items]))
+    if name == "swapaxes":
+        a, b = ev.concrete_int(args[0]) % x.ndim, ev.concrete_int(args[1]) % x.ndim
+        order = list(range(x.ndim))
+        order[a], order[b] = order[b], order[a]
+        return nd_permute(x, order)
+    if name == "transpose":
+        perm = [ev.concrete_int(a) for a in (args[0].items if len(args) == 1 and isinstance(args[0], (TupleV, ListV)) else args)]
+        return nd_permute(x, perm or list(reversed(range(x.ndim))))
+    if name in ("compute", "persist", "rechunk", "view", "ravel"):
+        return x
     ev.unsupported(f"method .{name}() on an explicit array", node, fr)
 
 
@@ -1021,7 +1039,70 @@ def nd_getitem(ev, x: NdArr, idx, fr, node):
             out_shape.append(len(p[2]))
     if not out_shape:
         return out_items[0]
-    return NdArr(out_shape, out_items)
+    res = NdArr(out_shape, out_items)
+    res.dtype = getattr(x, "dtype", None)
+    return res
+
+
+def nd_lines(x: NdArr, axis):
+    """Yield (list of flat offsets along `axis`) for every line of the array."""
+    import itertools
+    axis %= x.ndim
+    strides, acc = [], 1
+    for s_ in reversed(x.shape):
+        strides.insert(0, acc)
+        acc *= s_
+    others = [range(n) if i != axis else [0] for i, n in enumerate(x.shape)]
+    for combo in itertools.product(*others):
+        base = sum(c * st for c, st in zip(combo, strides))
+        yield [base + k * strides[axis] for k in range(x.shape[axis])]
+
+
+def nd_dft(ev, x: NdArr, axis, n, inverse):
+    """Exact DFT of an explicit array along one axis (scipy convention: forward unscaled, inverse 1/n)."""
+    axis %= x.ndim
+    m = x.shape[axis]
+    n = m if n is None else n
+    new_shape = list(x.shape)
+    new_shape[axis] = n
+    out = NdArr(new_shape, [Num(0)] * (len(x.items) // m * n))
+    sign = 1 if inverse else -1
+    w = [sp.exp(sign * 2 * sp.pi * sp.I * sp.Rational(k, n)) for k in range(n)]
+    for src, dst in zip(nd_lines(x, axis), nd_lines(out, axis)):
+        vals = [x.items[o].expr for o in src][:n]
+        for k in range(n):
+            acc = sp.Integer(0)
+            for j, v in enumerate(vals):
+                acc += v * w[(j * k) % n]
+            out.items[dst[k]] = Num(sp.expand(acc / n) if inverse else sp.expand(acc))
+    return out
+
+
+def nd_roll(x: NdArr, axis, shift):
+    axis %= x.ndim
+    out = NdArr(x.shape, list(x.items))
+    n = x.shape[axis]
+    for line in nd_lines(x, axis):
+        vals = [x.items[o] for o in line]
+        for k in range(n):
+            out.items[line[(k + shift) % n]] = vals[k]
+    return out
+
+
+def nd_permute(x: NdArr, order):
+    import itertools
+    new_shape = [x.shape[i] for i in order]
+    strides, acc = [], 1
+    for s_ in reversed(x.shape):
+        strides.insert(0, acc)
+        acc *= s_
+    items = []
+    for combo in itertools.product(*[range(n) for n in new_shape]):
+        src = [0] * x.ndim
+        for pos, ax in enumerate(order):
+            src[ax] = combo[pos]
+        items.append(x.items[sum(c * st for c, st in zip(src, strides))])
+    return NdArr(new_shape, items)
 
 
 def nd_setitem(ev, x: NdArr, idx, v, fr, node):
@@ -1528,6 +1609,10 @@ def _fft_like(fname):
         n = kwargs.get("n", args[1] if len(args) > 1 else NONE)
         if isinstance(x, StackV):
             return x.map(lambda e: h(ev, [e] + list(args[1:]), kwargs, fr, node))
+        if isinstance(x, NdArr) and fname in ("FFT", "IFFT"):
+            out = nd_dft(ev, x, ev.concrete_int(axis), None if isinstance(n, NoneV) else ev.concrete_int(n), fname == "IFFT")
+            out.dtype = getattr(x, "dtype", None)
+            return out
         if not isinstance(x, Num):
             ev.unsupported(f"{fname} of {x!r}", node, fr)
         ax = axis.expr if isinstance(axis, Num) else NONE_S
@@ -1560,6 +1645,15 @@ def _shift_like(fname):
             ax = NONE_S
         if isinstance(x, StackV):
             return x.map(lambda e: h(ev, [e] + list(args[1:]), kwargs, fr, node))
+        if isinstance(x, NdArr):
+            al = [ev.concrete_int(a) for a in axes.items] if isinstance(axes, (TupleV, ListV)) else \
+                ([ev.concrete_int(axes)] if isinstance(axes, Num) else list(range(x.ndim)))
+            out = x
+            for a in al:
+                nn = out.shape[a % out.ndim]
+                out = nd_roll(out, a, nn // 2 if fname == "FFTSHIFT" else -(nn // 2))
+            out.dtype = getattr(x, "dtype", None)
+            return out
         return Num(F[fname](x.expr, ax), kind=x.kind, shape=x.shape, backend=x.backend, tag=x.tag, dtype=x.dtype)
     return h
 
